@@ -333,8 +333,17 @@ impl AstLowering {
                                 errors.push(e);
                             }
 
-                            // Generate impl block for all methods (inherited + own)
-                            if !all_methods.is_empty() {
+                            // Generate impl block for all methods (inherited + own). A class deriving
+                            // Serialize/Deserialize needs the block even without methods: the emitter attaches
+                            // `to_json` / `from_json` to it (as it does for models).
+                            let has_serde_derive = struct_ir.derives.iter().any(|d| {
+                                matches!(
+                                    incan_core::lang::derives::from_str(d.as_str()),
+                                    Some(incan_core::lang::derives::DeriveId::Serialize)
+                                        | Some(incan_core::lang::derives::DeriveId::Deserialize)
+                                )
+                            });
+                            if !all_methods.is_empty() || has_serde_derive {
                                 match self.lower_class_methods(&struct_ir.name, &all_methods) {
                                     Ok(impl_ir) => {
                                         ir_program.declarations.push(IrDecl::new(IrDeclKind::Impl(impl_ir)));
